@@ -170,6 +170,12 @@ func (w *mwWorld) checkCalls(what string, calls []mon.MWCall, names []string, wa
 	seen := map[k]int{}
 	for _, c := range calls {
 		seen[k{c.Name, wrapKey{c.NextBase, c.Method, c.Router}}]++
+		if !contains(names, c.Name) {
+			// a factory runs once per handler it wraps, when it is given (or when the handler is made) - not again because
+			// a later call has to wrap the same handler in something else
+			w.fail(fmt.Sprintf("%s: factory %s, which is no part of this call, was invoked (for base h%d, method %q, router %q)", what, c.Name, c.NextBase, c.Method, c.Router), nil)
+			return
+		}
 	}
 	for key, n := range seen {
 		if n > 1 {
